@@ -33,7 +33,7 @@ def _precedence(e):
     return [src(e)]
 
 
-@rule("C18.precedence", min_instances=2)
+@rule("C18.precedence", min_instances=2, props=["C20"])
 def precedence(ctx):
     """decode_raw_stream: the coding comment takes precedence over input_encoding, UTF-8 is the default - on the str branch and on the bytes branch"""
     db = ctx.db
